@@ -31,7 +31,9 @@ RULE = ("Random: records of 60..3000 bases, linear or circular, with 2-9 genes b
         "protoclusters (+ a hybrid pair covering two of them)', one in five from 'origin-spanning protocluster + small "
         "disjoint protoclusters before/after the origin + some elsewhere', one in six from 'chain of 4-7 protoclusters "
         "linked by shared genes / core overlap / extent overlap with the extent starts in any order relative to the "
-        "cores' (form_chain_enum: every order of the extent starts for chains of 4-6, thorough 7). Genes next to a "
+        "cores'; one case in three of all of these is built with a history (part of the protoclusters and genes added "
+        "after candidates were created once, candidates then cleared; form_history_enum: all pairs of shapes x which "
+        "protocluster is late x all genes late) (form_chain_enum: every order of the extent starts for chains of 4-6, thorough 7). Genes next to a "
         "core (inside the neighbourhood only) are given the protocluster's own product one time in six. Non-trivial: >= 3 protoclusters with at least two different relations among "
         "share-a-defining-gene / cores overlap / extents overlap, or a relation through an origin-spanning core or "
         "extent, or two related protoclusters with identical coordinates, or a same-coordinates promotion; distinct = "
@@ -284,22 +286,46 @@ class Reference:
 # --------------------------------------------------------------------------- building and observing
 
 def _build_record(spec: dict):
+    """ Plain build: genes, then protoclusters. With spec["late_protos"] / spec["late_genes"] the record has a
+        history: the early genes and protoclusters are added, candidates are created, then the late protoclusters
+        and after them the late genes are added, and the candidates are cleared again. The content is the same,
+        so the outcome has to be the same as for the plain build (the statement speaks of the set of protoclusters
+        in a record, not of how the record got there). """
     from antismash.common.secmet.features.protocluster import SideloadedProtocluster
     from antismash.common.secmet.qualifiers.gene_functions import GeneFunction
     record = make_record(spec["L"], spec["circular"])
+    late_protos = set(spec.get("late_protos") or [])
+    late_genes = set(spec.get("late_genes") or [])
+    genes = []
     for gene in spec["genes"]:
         cds = make_cds(gene["loc"], gene["name"])
         for product in gene.get("core_for", []):
             cds.gene_functions.add(GeneFunction.CORE, "verif", "desc", product)
-        record.add_cds_feature(cds)
+        genes.append((gene["name"], cds))
     protos = []
     for proto in spec["protos"]:
         if proto.get("sideloaded"):
             feature = SideloadedProtocluster(to_loc(proto["core"]), to_loc(proto["loc"]), "verif", proto["product"])
         else:
             feature = make_protocluster(proto["core"], proto["loc"], product=proto["product"])
-        record.add_protocluster(feature)
         protos.append(feature)
+    for name, cds in genes:
+        if name not in late_genes:
+            record.add_cds_feature(cds)
+    for index, feature in enumerate(protos):
+        if index not in late_protos:
+            record.add_protocluster(feature)
+    if late_protos or late_genes:
+        with code_under_test("formation_total"):
+            record.create_candidate_clusters()
+        with code_under_test("history_total"):
+            for index, feature in enumerate(protos):
+                if index in late_protos:
+                    record.add_protocluster(feature)
+            for name, cds in genes:
+                if name in late_genes:
+                    record.add_cds_feature(cds)
+            record.clear_candidate_clusters()
     return record, protos
 
 
@@ -584,6 +610,14 @@ def _describe(spec: dict, got: list, model: Reference, repeated_member: bool) ->
             break
     if any(p.get("sideloaded") for p in protos):
         classes.append("sideloaded_protocluster")
+    late_protos = set(spec.get("late_protos") or [])
+    late_genes = set(spec.get("late_genes") or [])
+    if late_protos or late_genes:
+        classes.append("history")
+        if len(late_protos) < count and any(model.defs[i] & late_genes for i in late_protos):
+            classes.append("history_late_protocluster_gets_late_defining_gene")
+            if any(model.defs[i] & model.defs[j] & late_genes for i in late_protos for j in range(count) if j != i):
+                classes.append("history_late_shared_defining_gene")
     classes.extend(sorted(model.labels))
     if spec.get("family"):
         classes.append("family_" + spec["family"])
@@ -592,7 +626,8 @@ def _describe(spec: dict, got: list, model: Reference, repeated_member: bool) ->
 
 
 SUBCHECKS = {"form": check_form, "form_enum": check_form, "form_twins_enum": check_form,
-             "form_bridge_enum": check_form, "form_spanning_enum": check_form, "form_chain_enum": check_form}
+             "form_bridge_enum": check_form, "form_spanning_enum": check_form, "form_chain_enum": check_form,
+             "form_history_enum": check_form}
 
 
 def _sig_same_pass_tie(sub: str, spec: dict, clause: str, detail: dict) -> bool:
@@ -1041,6 +1076,34 @@ def enum_bridge_cases(cells: int):
     return cases
 
 
+@st.composite
+def with_history(draw, base):
+    """ one case in three gets a build history: a random part of the protoclusters and of the genes is added only
+        after candidates have been created once (biased to 'all genes late') """
+    spec = draw(base)
+    if draw(st.integers(0, 2)) or not spec["protos"]:
+        return spec
+    spec = dict(spec)
+    count = len(spec["protos"])
+    spec["late_protos"] = sorted(draw(st.sets(st.integers(0, count - 1), max_size=count)))
+    names = [gene["name"] for gene in spec["genes"]]
+    if draw(st.booleans()) or not names:
+        spec["late_genes"] = names
+    else:
+        spec["late_genes"] = sorted(draw(st.sets(st.sampled_from(names))))
+    return spec
+
+
+def enum_history_cases(cells: int):
+    """ every pair of shapes of enum_cases on `cells` cells x which of the two protoclusters is added after the
+        candidates exist (the second, the first, both) x the genes all added last """
+    def cases():
+        for spec in enum_cases([(cells, 2)])():
+            for late in ([1], [0], [0, 1]):
+                yield dict(spec, late_protos=late, late_genes=[gene["name"] for gene in spec["genes"]])
+    return cases
+
+
 def enum_chain_cases(sizes: tuple):
     """ chains of n protoclusters (cores left to right, each consecutive pair sharing one defining gene, or - second
         variant - only overlapping in the cores) x every order of the n extent starts; line, and for n <= 5 the ring """
@@ -1098,5 +1161,8 @@ def run(ctx) -> None:
     ctx.extra["chain_enumeration_sizes"] = list(ctx.pick((4, 5, 6), (4, 5, 6, 7)))
     ctx.enum("form_chain_enum", enum_chain_cases(ctx.pick((4, 5, 6), (4, 5, 6, 7))), shards=ctx.pick(8, 16),
              stop_after=3)
-    mixed = st.one_of(form_specs(), form_specs(), form_specs(), bridge_specs(), spanning_specs(), chain_specs())
+    ctx.extra["history_enumeration_cells"] = ctx.pick(5, 7)
+    ctx.enum("form_history_enum", enum_history_cases(ctx.pick(5, 7)), shards=ctx.pick(8, 16), stop_after=3)
+    mixed = with_history(st.one_of(form_specs(), form_specs(), form_specs(), bridge_specs(), spanning_specs(),
+                                   chain_specs()))
     ctx.hyp("form", mixed, max_examples=ctx.pick(2000, 30000), shards=ctx.pick(8, 16))
